@@ -409,9 +409,18 @@ class Daemon:
                                      stderr=self.errf, env=e)
         self.address = "unix:path=" + self.sock
         t_end = time.time() + 10
-        while not os.path.exists(self.sock):
+        while True:
             if self.proc.poll() is not None or time.time() > t_end:
                 raise IOError("daemon did not start: " + self.stderr())
+            if os.path.exists(self.sock):
+                # the socket file appears at bind(); wait until listen() has happened too
+                probe = socket.socket(socket.AF_UNIX, socket.SOCK_STREAM)
+                try:
+                    probe.connect(self.sock)
+                    probe.close()
+                    break
+                except OSError:
+                    probe.close()
             time.sleep(0.005)
 
     def connect(self, **kw):
